@@ -121,7 +121,9 @@ fn translate_block(
                 capstone::ppc_insn::PPC_INS_BCTR => {
                     semantics::bctr(&mut instruction_graph, &instruction)
                 }
-                capstone::ppc_insn::PPC_INS_BDNZL => nop(&mut instruction_graph),
+                capstone::ppc_insn::PPC_INS_BDNZL => {
+                    semantics::bdnzl(&mut instruction_graph, &instruction)
+                }
                 capstone::ppc_insn::PPC_INS_BLR => {
                     semantics::blr(&mut instruction_graph, &instruction)
                 }
